@@ -600,6 +600,25 @@ func runC17(w *World, r *Report) {
 	}
 
 	// ---- loopvar
+	shareRule(w, r, "C17.tool-error-stays-in-the-chain", "the error of a failing tool is wrapped with %w by the tools node in Stream as in Invoke: the same failing call gives an error errors.Is / errors.As can match in both modes", 1, "C13", "C13.percent-w")
+	r.Rule("C17.given-tool-list-replaces", "a tool list given with the call replaces the configured tools whenever it was given (non-nil) — an explicitly empty list means 'no tool is available in this call' (every name is unknown), not 'use the configured ones': the conversion of the call's list in Invoke and Stream stands under ToolList != nil", 2)
+	{
+		conv := w.Fn("compose", "convTools")
+		n := 0
+		for _, nm := range []string{"ToolsNode.Invoke", "ToolsNode.Stream"} {
+			f := w.Fn("compose", nm)
+			for _, c := range callsTo(f, conv) {
+				n++
+				isTL := func(v ssa.Value) bool { fl, _ := loadedField(v); return fl != nil && fl.Name() == "ToolList" }
+				good := hasGuard(c.Block(), func(g guard) bool { return guardNonNil(g, isTL) })
+				r.Check(good, "C17.given-tool-list-replaces", nm+": the call's tool list is converted whenever one was given", c.Pos(), "under opt.ToolList != nil", "the call's list replaces the configured tools only when it is non-empty: with WithToolList() — explicitly no tools — every name should be unknown (an error, or the UnknownToolsHandler's answer), but the node silently runs the configured tools and returns their outputs")
+			}
+		}
+		if n < 2 {
+			undecidedf("C17.given-tool-list-replaces: only %d conversions of a call's tool list found", n)
+		}
+	}
+
 	r.Rule("C17.frame-slot-is-the-position", "the slot of a call's messages in the streamed frames is the call's position in the list, as the result list of Invoke has it: no integer captured by a literal built in ToolsNode.Stream derives from the Index the model gave the call — a list not in index order would permute ids and outputs, indices that start at 1 or have gaps would index the frame out of range", 1)
 	{
 		st := w.Fn("compose", "ToolsNode.Stream")
